@@ -218,6 +218,9 @@ func (l *Log) Snapshot() []Event {
 
 // Instance is one running simulated Alertmanager.
 type Instance struct {
+	// GoneClient, while set, makes every request arrive with an already cancelled context.
+	GoneClient atomic.Bool
+
 	Name string
 	Opts Options
 	App  *app.App
@@ -467,7 +470,17 @@ func (n *recNotifier) Notify(ctx context.Context, alerts ...*alert.Alert) (bool,
 		case "ok":
 			att.Outcome = "ok"
 		case "recoverable":
-			att.Outcome, retry, err = "recoverable", true, fmt.Errorf("scripted recoverable failure")
+			// the three shapes a recoverable failure takes in real integrations: a plain error (5xx), the
+			// integration's own per-attempt timeout, a network timeout - all long before the flush deadline
+			switch att.Seq % 3 {
+			case 0:
+				err = fmt.Errorf("scripted recoverable failure")
+			case 1:
+				err = fmt.Errorf("scripted recoverable failure (attempt timed out): %w", context.DeadlineExceeded)
+			default:
+				err = fmt.Errorf("scripted recoverable failure (i/o timeout): %w", os.ErrDeadlineExceeded)
+			}
+			att.Outcome, retry = "recoverable", true
 		case "unrecoverable":
 			att.Outcome, retry, err = "unrecoverable", false, fmt.Errorf("scripted unrecoverable failure")
 		default:
@@ -498,6 +511,13 @@ func (in *Instance) Do(method, path string, body any) (int, []byte) {
 		rd = strings.NewReader(bs)
 	}
 	req := httptest.NewRequest(method, path, rd)
+	if in.GoneClient.Load() {
+		// the client hung up right after sending its request: the request context is already cancelled
+		// while the server processes it (net/http cancels it when the connection drops)
+		ctx, cancel := context.WithCancel(req.Context())
+		cancel()
+		req = req.WithContext(ctx)
+	}
 	if body != nil {
 		req.Header.Set("Content-Type", "application/json")
 	}
